@@ -13,7 +13,7 @@ use store_common::*;
 use vharness::*;
 
 /// Generous per-call deadline (the machine is shared): the background flush thread polls once per second.
-const LAT_DEADLINE_S: u64 = 45;
+const LAT_DEADLINE_S: u64 = 90;
 
 fn latency_case(n: usize, io: usize, combine: u64, cthreads: usize) -> (String, String, String) {
     let dir = tempfile::tempdir().unwrap();
